@@ -333,10 +333,10 @@ func (fl *Flow) get(v ssa.Value) Label {
 		return l
 	}
 	switch v.(type) {
-	case *ssa.Const, *ssa.Function, *ssa.Builtin:
+	case *ssa.Function, *ssa.Builtin:
 		return 0
-	case *ssa.Global:
-		return fl.eval(v, nil)
+	case *ssa.Const, *ssa.Global:
+		return fl.eval(v, nil) // the spec may label constants (e.g. "not the constant true")
 	}
 	return 0 // not yet computed (back edge): optimistic, fixpoint iterates
 }
